@@ -159,3 +159,17 @@ contract(f"{ES}::TunnelExitSocket.datagram_received_ipv6", "datagram_received_ip
 from contracts.tunnel_common import *  # noqa: E402,F403
 
 exit_data_contract()
+
+# ... and what reaches exit_data at all: on_data refuses the null destination and everything that is not exit traffic (shared obligations
+# of contracts/tunnel_shared.py, registered under every tunnel property whose statement they carry)
+from contracts.common import RUST_MODELS  # noqa: E402
+from contracts.tunnel_shared import *  # noqa: E402,F403
+
+try:
+    from ipv8.messaging.serialization import default_serializer  # noqa: E402,F401
+    from ipv8.messaging.anonymization.community import TunnelCommunity  # noqa: E402,F401
+except ImportError:
+    pass
+
+EXTERNAL_MODELS = {**RUST_MODELS, **TUNNEL_MODELS, **DH_MODELS}
+on_create_and_on_data_contracts()
